@@ -317,28 +317,43 @@ def r05d(ctx):
                      "unconditionally (listing sub-edits before refining must give the same pairing as refining first)")
     q = m.need_class("WeightedBipartiteMatcher")
     f = m.method(q, "matching")
-    from ..astx import inline_stmt_calls, block_of
-    flat = inline_stmt_calls(m, q, f.node, keep=("_make_edges_distinct",))      # the solving may sit in a helper the property calls
-    solve = [c for c in walk_no_nested(flat) if isinstance(c, ast.Call) and (call_name(c) or "").endswith("min_weight_bipartite_matching")]
-    ctx.floor("R05d", len(solve), 1, "solver calls in WeightedBipartiteMatcher.matching")
-    for c in solve:
-        st = c
-        while not isinstance(st, ast.stmt):
-            st = parent(st)
-        # an unconditional `self._make_edges_distinct()` earlier in the same block, or earlier in an enclosing block
-        pre = []
-        cur = st
-        while cur is not None and cur is not flat:
+    from ..astx import block_of
+
+    def preds(node, fn_node):
+        """unconditional `self._make_edges_distinct()` statements earlier in the block of `node` or in an enclosing block"""
+        out, cur = [], node
+        while not isinstance(cur, ast.stmt):
+            cur = parent(cur)
+        while cur is not None and cur is not fn_node:
             lst, idx = block_of(cur) if isinstance(cur, ast.stmt) else (None, None)
             if lst is not None:
-                pre += [x for x in lst[:idx] if isinstance(x, ast.Expr) and isinstance(x.value, ast.Call)
+                out += [x for x in lst[:idx] if isinstance(x, ast.Expr) and isinstance(x.value, ast.Call)
                         and self_attr(x.value.func) == "_make_edges_distinct"]
             cur = parent(cur)
+        return out
+    # the property and the methods of the class it calls (for their effect or for their value), two levels: (function, chain of
+    # call sites that lead to it)
+    region, frontier = [(f, [])], [(f, [])]
+    for _ in range(2):
+        nxt = []
+        for g, chain in frontier:
+            for c in walk_no_nested(g.node):
+                hname = self_attr(c.func) if isinstance(c, ast.Call) else None
+                h = m.method(q, hname) if hname and hname not in ("_make_edges_distinct", "matching") else None
+                if h is not None and all(h is not g2 for g2, _ in region):
+                    region.append((h, chain + [(c, g)]))
+                    nxt.append((h, chain + [(c, g)]))
+        frontier = nxt
+    solve = [(c, g, chain) for g, chain in region for c in walk_no_nested(g.node)
+             if isinstance(c, ast.Call) and (call_name(c) or "").endswith("min_weight_bipartite_matching")]
+    ctx.floor("R05d", len(solve), 1, "solver calls in WeightedBipartiteMatcher.matching and the methods it calls")
+    for c, g, chain in solve:
+        pre = preds(c, g.node) + [x for site, owner in chain for x in preds(site, owner.node)]
         if pre:
             ctx.proved("R05d", f.file, "WeightedBipartiteMatcher.matching", c, "distinct before solve",
                        "self._make_edges_distinct() is called unconditionally before the solver on the way to it")
         else:
-            anyc = [x for x in walk_no_nested(flat) if isinstance(x, ast.Call) and self_attr(x.func) == "_make_edges_distinct"]
+            anyc = [x for g2, _ in region for x in walk_no_nested(g2.node) if isinstance(x, ast.Call) and self_attr(x.func) == "_make_edges_distinct"]
             how = f"it is only called under a condition (line {anyc[0].lineno})" if anyc else "it is never called"
             ctx.violation("R05d", f.file, "WeightedBipartiteMatcher.matching", c, "distinct before solve",
                           f"the assignment is solved on the edges' current upper bounds but _make_edges_distinct() does not "
